@@ -266,8 +266,13 @@ class ControlFlowTransformer(converter.Base):
   def visit_While(self, node):
     node = self.generic_visit(node)
     body_scope = anno.getanno(node, annos.NodeAnno.BODY_SCOPE)
+    cond_scope = anno.getanno(node, annos.NodeAnno.COND_SCOPE)
 
-    loop_vars, undefined, _ = self._get_block_vars(node, body_scope.bound)
+    loop_vars, undefined, _ = self._get_block_vars(
+        node, body_scope.bound | cond_scope.bound)
+    # Names bound by the test itself (assignment expressions) are shared by the
+    # test and the body functions, whatever their liveness around the loop.
+    loop_vars = sorted(set(loop_vars) | cond_scope.bound)
 
     undefined_assigns = self._create_undefined_assigns(undefined)
 
@@ -287,6 +292,7 @@ class ControlFlowTransformer(converter.Base):
         nonlocal_declarations
         body
       def test_name():
+        nonlocal_declarations
         return test
       undefined_assigns
       ag__.while_stmt(
